@@ -1,9 +1,9 @@
 CONSTANTS
-  MaxOps = 3
+  MaxOps = 40
   OracleN = 0
   Starts = {"k4", "k5", "k33"}
   GlueK5 = TRUE
-  Randomised = FALSE
+  Randomised = TRUE
 INIT Init
 NEXT Next
 INVARIANT EmitAll
